@@ -102,24 +102,26 @@ var parkCases []Case
 
 func init() {
 	type pre struct {
-		ar   int
-		defs []string
-		call string
+		ar    int
+		defs  []string
+		call  string
+		specs []string
 	}
 	pres := []pre{
-		{1, []string{"Dp0"}, "C3"},
-		{1, []string{"Dp0", "Db0", "Da1"}, "C3"},
-		{1, []string{"Dpt"}, "C1"},
-		{1, []string{"Dp0", "Dp1"}, "C1"},
-		{1, []string{"Dp0", "Dw1"}, "C2"},
-		{2, []string{"Dp00", "Db10"}, "C31"},
+		{1, []string{"Dp0"}, "C3", []string{"0", "1"}},
+		{1, []string{"Dp0", "Db0", "Da1"}, "C3", []string{"0", "1"}},
+		{1, []string{"Dpt"}, "C1", []string{"0", "1"}},
+		{1, []string{"Dp0", "Dp1"}, "C1", []string{"0", "1"}},
+		{1, []string{"Dp0", "Dw1"}, "C2", []string{"0", "1"}},
+		{2, []string{"Dp00", "Db10"}, "C31", []string{"00", "10"}},
+		// the single-method fast path: the caller is stopped after it has
+		// picked the default caller
+		{1, []string{"Dpt"}, "C1", []string{"t", "1"}},
+		{2, []string{"Dptt"}, "C13", []string{"tt", "1t"}},
 	}
 	for _, p := range pres {
 		var alpha []string
-		specs := []string{"0", "1"}
-		if p.ar == 2 {
-			specs = []string{"00", "10"}
-		}
+		specs := p.specs
 		for _, k := range []string{"D", "R"} {
 			for _, q := range []string{"p", "b", "a"} {
 				for _, s := range specs {
@@ -274,6 +276,9 @@ func execPark(x *fw.Ctx, c Case) {
 func genConc(r *rand.Rand, i int, tier string) Case {
 	ar := 1 + r.IntN(2)
 	c := Case{Kind: "conc", Fam: "clos", Ar: ar, Note: "conc", PSeed: r.Uint64()}
+	if r.IntN(5) == 0 {
+		return genConcFast(r, c)
+	}
 	// :around methods in one case out of three
 	quals := []string{ref.Primary, ref.Before, ref.After}
 	if r.IntN(3) == 0 {
@@ -327,6 +332,65 @@ func genConc(r *rand.Rand, i int, tier string) Case {
 			continue
 		}
 		c.Thr[t] = append(c.Thr[t], callOp(randArgs(r, ar)))
+	}
+	return c
+}
+
+// genConcFast: histories around the single-method fast path: the table
+// holds 0..2 methods most of the time, mostly primaries on t, and one definer
+// moves it 0 -> 1 -> 2 -> 1 -> 0 while the other goroutines call.
+func genConcFast(r *rand.Rand, c Case) Case {
+	c.Note = "conc-fastpath"
+	ar := c.Ar
+	tspec := make([]int, ar)
+	for i := range tspec {
+		tspec[i] = ref.T
+	}
+	spec := func() []int {
+		if r.IntN(2) == 0 {
+			return tspec
+		}
+		s := make([]int, ar)
+		for i := range s {
+			s[i] = []int{ref.T, 0, 1}[r.IntN(3)]
+		}
+		return s
+	}
+	qual := func() string {
+		if r.IntN(4) == 0 {
+			return allQuals[r.IntN(4)]
+		}
+		return ref.Primary
+	}
+	st := ref.New()
+	if r.IntN(2) == 0 {
+		st.Define(&ref.Method{Qual: ref.Primary, Spec: tspec})
+		c.Pre = []string{defOp(ref.Primary, tspec, 0)}
+	}
+	nThr := 3 + r.IntN(5)
+	total := 10 + r.IntN(21)
+	c.Thr = make([][]string, nThr)
+	for n := 0; n < total; n++ {
+		t := r.IntN(nThr)
+		if t != 0 && r.IntN(3) != 0 {
+			c.Thr[t] = append(c.Thr[t], callOp(randArgs(r, ar)))
+			continue
+		}
+		// the definer (also gets the ops the callers declined, so that the table changes often)
+		if 0 < len(st.M) && (2 <= len(st.M) || r.IntN(2) == 0) {
+			var ms []*ref.Method
+			for _, m := range st.M {
+				ms = append(ms, m)
+			}
+			sortMethods(ms)
+			m := ms[r.IntN(len(ms))]
+			c.Thr[0] = append(c.Thr[0], remOp(m.Qual, m.Spec))
+			st.Remove(m.Qual, m.Spec)
+			continue
+		}
+		q, sp := qual(), spec()
+		st.Define(&ref.Method{Qual: q, Spec: sp})
+		c.Thr[0] = append(c.Thr[0], defOp(q, sp, ref.BodyFlat))
 	}
 	return c
 }
